@@ -410,3 +410,33 @@ def rule_into_impl_set(ctx):
             ok = False
         if not ok:
             ctx.report("into-set:struct-push", ctx.where(f, mc), f"the whole-struct conversion is generated under `{GF.canon_text(fm)}` instead of 'a struct-level conversion list exists' (`struct_attr` is Some): the documented impl for the tuple of non-skipped fields is missing for some inputs (or appears without a list)", {})
+
+
+def rule_merge_no_shortcut(ctx):
+    """MERGE-DUP: when two attributes of one item are merged (`ParseMultiple::merge_attrs` / `merge_opt_attrs`), a part that both of them give is never resolved by `Option::or` / `or_else` / `xor` / `unwrap_or` / `get_or_insert*` on the two sides - those keep one value and drop the other silently, so `#[into(skip)] #[into(ignore)]`, two `rename_all`s or two literals stop being the documented 'only one allowed' error. A repeated part goes through the sub-attribute's own merge (which refuses it) or an explicit both-present test."""
+    SHORT = {"or", "or_else", "xor", "unwrap_or", "unwrap_or_else", "unwrap_or_default", "get_or_insert", "get_or_insert_with", "max", "min", "and"}
+    n = 0
+    for rel, f in sorted(ctx.files.items()):
+        if not rel.startswith("impl/src/"):
+            continue
+        for fn in A.functions(f):
+            if fn.block is None or fn.name not in ("merge_attrs", "merge_opt_attrs"):
+                continue
+            prm = [x for p_ in fn.node["sig"]["inputs"] if A.kind(p_) == "FnArg::Typed" for x in A.pat_idents(p_["0"]["pat"])]
+            sides = set(prm[:2])
+            # names destructured / aliased from the two sides
+            for st, _ in A.find(fn.block, "Stmt::Local"):
+                if st.get("init") and any(re.search(r"\b%s\b" % re.escape(s_), A.render(st["init"]["expr"])) for s_ in list(sides)):
+                    sides |= set(A.pat_idents(st["pat"]))
+            n += 1
+            ctx.instance(f"merge-dup:{rel}::{fn.qual}")
+            for mc, _ in A.find(fn.block, "Expr::MethodCall"):
+                if mc["method"]["sym"] not in SHORT:
+                    continue
+                root, ops = A.chain(mc["receiver"])
+                rn = A.path_str(root) if A.kind(root) == "Expr::Path" else None
+                args_txt = " ".join(A.render(a) for a in mc["args"])
+                other = any(re.search(r"\b%s\b" % re.escape(s_), args_txt) for s_ in sides if s_ != rn)
+                if rn in sides and other:
+                    ctx.report(f"merge-dup:{rel}::{fn.qual}:{mc['method']['sym']}", ctx.where(f, mc["method"]), f"`{fn.qual}` resolves a part given by both attributes with `{A.render(mc)[:80]}`: one value is kept and the other dropped without a diagnostic (a duplicated `skip` / list / literal is accepted), instead of the sub-attribute's own merge refusing it", {})
+    ctx.floor("attribute merge functions", n, 8)
